@@ -62,9 +62,11 @@ def values_for(annotation, rng):
     if a == "float":
         return [0.0, 0.5, f32r(21.3), 1.0, 100.0]
     if a == "str":
-        return ["", "x", "zwölf é"]
+        # (long values too: payloads of 256 and of 65 536 bytes and more - what is written is a function of this call alone)
+        return ["", "x", "zwölf é", "y" * 249, "q" * 300, "w" * 65543]
     if a.startswith("tuple"):
-        return [(0.0, 0.0, 0.0), (1.0, 0.5, 0.25)]
+        # components are carried as given, also outside the unit interval
+        return [(0.0, 0.0, 0.0), (1.0, 0.5, 0.25), (1.5, 0.5, 0.25), (255.0, 128.0, 0.0)]
     if hasattr(model, a):
         ms = list(getattr(model, a))
         return [ms[0], ms[-1], ms[len(ms) // 2]]
@@ -222,11 +224,21 @@ def run(rep, tier, seed):
         if err is not None or len(writes) != 1:
             rep.violation(f"C15/call-failed:{name}", f"{name}({kwargs}) raised {type(err).__name__ if err else None} / wrote {len(writes)} frames", replay)
             continue
-        frames = simnet.decode_plain_stream(writes[0])
-        ty, payload = frames[0]
-        cls = MESSAGE_TYPE_TO_PROTO[ty]
-        msg = cls()
-        msg.ParseFromString(payload)
+        # what went out must be one well-formed frame of the request class of this command, whatever was sent before
+        try:
+            frames = simnet.decode_plain_stream(writes[0])
+            ty, payload = frames[0]
+            cls = MESSAGE_TYPE_TO_PROTO[ty]
+            msg = cls()
+            msg.ParseFromString(payload)
+            bad = None if len(frames) == 1 else f"{len(frames)} frames in one write"
+        except Exception as e:  # noqa: BLE001
+            bad = f"the bytes written do not decode as one frame of a declared message ({type(e).__name__}: {e})"
+        if bad is None and not cls.__name__.lower().startswith(name.replace("_command", "").replace("_", "")):
+            bad = f"the frame carries a {cls.__name__}"
+        if bad:
+            rep.violation(f"C15/frame:{name}", f"{name}({ {k: (v if len(repr(v)) < 40 else repr(v)[:20] + '...') for k, v in kwargs.items()} }): {bad}", replay)
+            continue
         d = cls.DESCRIPTOR
         # ---- oracle from the property: key; each optional argument with its flag exactly when supplied; others default
         if "key" in d.fields_by_name and msg.key != kwargs["key"]:
